@@ -29,7 +29,7 @@ WHAT = {
     "version_table_google": "Version::Google wire bytes / delegation context / response context equal the protocol's",
     "version_table_rfcdraft13": "Version::RfcDraft13 wire bytes / delegation context / response context equal the protocol's",
     "supported_versions_table": "Version::supported_versions_wire() == wire(Google) ++ wire(RfcDraft13)",
-    "get_supported_version_first_four": "request::get_supported_version == Some(RfcDraft13) <=> draft-13 among the first four VER words, for every list of 0..=6 words (all 2^32 values per word)",
+    "get_supported_version_first_four": "draft-13 among the first four VER words ==> request::get_supported_version == Some(RfcDraft13) ==> draft-13 somewhere in VER, for every list of 0..=6 words (all 2^32 values per word)",
     "const_tables": "REQUEST_FRAMING_BYTES, TREE_*_TWEAK, HASH_PREFIX_SRV, MIN/MAX_REQUEST_LENGTH equal the protocol's",
 }
 
